@@ -249,6 +249,7 @@ struct Shared { volatile int stop; Slot slots[64]; };
 static void worker_main(const std::vector<Batch> &batches, const std::string &prop, uint64_t seed, int tier, int w, int J, uint64_t b0, uint64_t i0,
                         Shared *sh, const std::string &dir, int gen) {
     install_watchdog(watchdog_seconds());
+    { int nfd = open((dir + fmt("/w%d.stderr", w)).c_str(), O_WRONLY | O_CREAT | O_APPEND, 0644); if (nfd >= 0) { dup2(nfd, 2); close(nfd); } }   // sanitizer reports are re-captured by the confirming child
     Agg agg;
     std::string failpath = dir + fmt("/w%d.fails", w);
     FILE *ff = fopen(failpath.c_str(), "a");
@@ -399,7 +400,7 @@ int run_check(const CheckSpec &spec, const RunOptions &opt) {
             std::string text = plan_to_text(fi.plan);
             text += "# violation: " + clause + "\n# " + fi.detail + "\n# signature: " + fi.sig + "\n";
             for (auto &l : c3.log) text += "#   " + l + "\n";
-            if (!c3.stderr_text.empty()) { std::istringstream es(c3.stderr_text); std::string l; int k = 0; while (std::getline(es, l) && k++ < 40) text += "# stderr: " + l + "\n"; }
+            if (!c3.stderr_text.empty()) { std::istringstream es(c3.stderr_text); std::string l; int k = 0; while (std::getline(es, l) && k++ < 16) text += "# stderr: " + l + "\n"; }
             write_file(fi.path, text);
         }
         findings.push_back(fi);
